@@ -1,9 +1,9 @@
 ---- MODULE SigAggMC ----
 (* Exhaustive design check: every scenario of SigAggCases (N shares, threshold T) for an attestation type (the VC-copy
    rule), a type with the genesis-domain rule and a plain type, every order in which the validators of a call are
-   aggregated.  With AggMode = "code" this checks that sigagg.go as transcribed satisfies the statement. *)
+   aggregated; plus (for one type) every list of T or T+1 misfiled partials made with cluster keys.  With AggMode = "code" this checks that sigagg.go as transcribed satisfies the statement. *)
 EXTENDS SigAggCases
 MCTypes == {"attester", "registration", "randao"}
-MCInit == \E ty \in MCTypes : \E s \in FullCalls(ty) : InitWith(ty, s)
+MCInit == \E ty \in MCTypes : \E s \in FullCalls(ty) \cup (IF ty = "randao" THEN MisfiledCalls(ty) ELSE {}) : InitWith(ty, s)
 MCSpec == MCInit /\ [][Next]_vars
 ====
